@@ -752,11 +752,12 @@ class Engine:
                     self.fm_calls += 2
                     if st.ctx.entails(lin.le(lin.const(rng[0]), e)) and st.ctx.entails(lin.le(e, lin.const(rng[1]))):
                         return {(): I(e, v[2])}
-                    s = self.fresh("trunc", rng)
+                    bits = prog.types[tt].get("bits")
+                    # a pure function of its operand: the same operand truncates to the same value (and rules can expand it mod 2^bits)
+                    s = self.named(("trunc", bits, e), rng) if bits else self.fresh("trunc", rng)
                     self.link(lin.var(s), e)
                     if self.record:
                         self.warnings.append(("lossy-cast", fr.body.path, node[1], prog.types[tt]["s"]))
-                    bits = prog.types[tt].get("bits")
                     md = v[2]
                     if md is None and bits:
                         md = (bits, e)
